@@ -83,6 +83,13 @@ func VerifC15Merge() {
 		}
 		c.AddLoaders(loader.NewRawLoader([]byte(doc)))
 	}
+	if nd.Param("ARGS", 1) == 1 && nd.Bool() {
+		// command-line arguments: --app.config=path=value, rendered as a nested document by the real ArgsLoader
+		c.AddLoaders(loader.NewArgsLoader([]string{"prog", "--app.config=n.x=argx", "--other", "--app.config=argonly.deep=ad"}))
+		put("n.x", "argx")
+		put("argonly.deep", "ad")
+		nd.Cover("command-line arguments loaded")
+	}
 	c.AddLoaders(&vProfileLoader{c: c})
 	put("imported", "<s0>")
 	nd.Assert(c.Initialize() == nil, "C15: loading succeeds")
@@ -93,6 +100,10 @@ func VerifC15Merge() {
 		if _, ok := want[k]; !ok {
 			nd.Assert(c.Get(k) == nil, "C15: a key no loader supplied is absent (nothing but the configured sources contributes)")
 		}
+	}
+	if _, ok := want["argonly.deep"]; ok {
+		sec, isMap := c.Get("n").(map[string]any)
+		nd.Assert(isMap && sec["x"] == any("argx"), "C15: a value given on the command line is part of its section like any other source's (deep merge)")
 	}
 	flat := map[string]any{}
 	vFlatten("", c.Get(""), flat)
